@@ -245,6 +245,20 @@ Definition monitor_c03 (k : case) (x : xobs) : bool :=
           else match x with XErr 2 | XCompileFail => true | _ => false end
   | 53 => if k_len k =? sz B then match x with XVal v => bytes_eqb v (k_bytes k) | _ => false end
           else match x with XErr 2 => true | _ => false end
+  (* the panicking forms (cast, pod_read_unaligned; checked:: twins on any-bit-pattern targets): the same
+     bytes when the sizes / the length match, otherwise a panic - never a value *)
+  | 52 => if sz A =? sz B then match x with XVal v => bytes_eqb v (k_bytes k) | _ => false end
+          else match x with XPanicMsg _ | XPanicOther => true | _ => false end
+  | 54 => if k_len k =? sz B then match x with XVal v => bytes_eqb v (k_bytes k) | _ => false end
+          else match x with XPanicMsg _ | XPanicOther => true | _ => false end
+  | 62 => if k_kind k =? 0 then
+            if sz A =? sz B then match x with XVal v => bytes_eqb v (k_bytes k) | _ => false end
+            else match x with XPanicMsg _ | XPanicOther => true | _ => false end
+          else true
+  | 64 => if k_kind k =? 0 then
+            if k_len k =? sz B then match x with XVal v => bytes_eqb v (k_bytes k) | _ => false end
+            else match x with XPanicMsg _ | XPanicOther => true | _ => false end
+          else true
   | _ => true
   end.
 
